@@ -22,6 +22,7 @@ type SpecEnv struct {
 	pkg   *ssa.Package
 	depth int
 	pre   *State // loop invariants: the state at loop entry, for pre(e) and newer(x)
+	loc   *State // state in which local variables are looked up (old(e) keeps the current locals)
 }
 
 func (f *Frame) specEnv(st, old *State, cells bool) *SpecEnv {
@@ -153,17 +154,30 @@ func (e *SpecEnv) numLit(v *big.Int, hint types.Type) Val {
 }
 
 func (e *SpecEnv) localVar(name string) (Val, bool) {
-	if e.f == nil || e.st == nil {
+	st := e.st
+	if e.loc != nil {
+		st = e.loc
+	}
+	if e.f == nil || st == nil {
 		return Val{}, false
 	}
-	for i := len(e.st.order) - 1; i >= 0; i-- {
-		a := e.st.order[i]
+	for i := len(st.order) - 1; i >= 0; i-- {
+		a := st.order[i]
 		if a.Comment == name && a.Parent() == e.f.fn {
-			if pv, ok := e.st.ptrs[a]; ok {
+			if pv, ok := st.ptrs[a]; ok {
 				return pv, true
 			}
-			if t, ok := e.st.cells[a]; ok {
+			if t, ok := st.cells[a]; ok {
 				return Val{T: a.Type().(*types.Pointer).Elem(), S: t}, true
+			}
+			if r, ok := st.hrefs[a]; ok {
+				// escaping local: its value lives in the heap (read in the state the expression is evaluated in)
+				et := a.Type().(*types.Pointer).Elem()
+				hst := e.st
+				if hst == nil {
+					hst = st
+				}
+				return Val{T: et, S: e.c.load(hst, &Path{Kind: rootHeap, T: et, Ref: r})}, true
 			}
 		}
 	}
@@ -199,7 +213,9 @@ func (e *SpecEnv) eval(x SExpr, hint types.Type) Val {
 		}
 		o := e.sub()
 		o.st = e.old
-		o.cells = false
+		if o.loc == nil {
+			o.loc = e.st // local variables keep their current values inside old(...)
+		}
 		return o.eval(n.X, hint)
 	case *SIte:
 		cnd := e.evalBool(n.C)
@@ -379,6 +395,29 @@ func (e *SpecEnv) unary(n *SUnary, hint types.Type) Val {
 
 func (e *SpecEnv) deref(v Val) Val {
 	c := e.c
+	if len(v.Alts) > 0 {
+		// guarded alternatives: the value at whichever location the pointer designates (nil: unconstrained)
+		var res Val
+		term := ""
+		for i := len(v.Alts) - 1; i >= 0; i-- {
+			a := v.Alts[i]
+			if a.P == nil {
+				continue
+			}
+			d := e.deref(Val{T: v.T, P: a.P})
+			if term == "" {
+				term = d.S
+			} else {
+				term = ite(a.Cond, d.S, term)
+			}
+			res = d
+		}
+		if term == "" {
+			sfail("dereference of a pointer that is nil on every path")
+		}
+		res.S = term
+		return res
+	}
 	if v.P != nil {
 		t := c.targetType(v.P)
 		if e.f != nil && e.st != nil {
@@ -419,7 +458,9 @@ func (e *SpecEnv) field(n *SField) Val {
 	}
 	v := e.eval(n.X, nil)
 	// auto-deref
-	if _, isPtr := v.T.Underlying().(*types.Pointer); isPtr || (v.P != nil && !isUnsafePtr(v.T)) {
+	if len(v.Alts) > 0 {
+		v = e.deref(v)
+	} else if _, isPtr := v.T.Underlying().(*types.Pointer); isPtr || (v.P != nil && !isUnsafePtr(v.T)) {
 		if v.P != nil {
 			// structural pointer: field through path
 			tt := c.targetType(v.P)
@@ -448,7 +489,14 @@ func (e *SpecEnv) field(n *SField) Val {
 			if st, ok := pt.Elem().Underlying().(*types.Struct); ok {
 				if idx := fieldIndex(st, n.Name); idx >= 0 {
 					p := &Path{Kind: rootHeap, T: pt.Elem(), Ref: v.S, Steps: []Step{{Field: idx}}}
-					return Val{T: st.Field(idx).Type(), S: c.load(e.st, p)}
+					t := c.load(e.st, p)
+					// memory contents are well-typed (integer ranges, slice and string shapes)
+					if !strings.Contains(t, "!q") {
+						if inv := c.typeInv(t, st.Field(idx).Type()); inv != "true" {
+							c.assume(inv)
+						}
+					}
+					return Val{T: st.Field(idx).Type(), S: t}
 				}
 			}
 		}
@@ -623,10 +671,10 @@ func (e *SpecEnv) binary(n *SBinary, hint types.Type) Val {
 			return Val{T: B, S: eq}
 		}
 		as, bs := a.S, b.S
-		if a.P != nil && e.f != nil {
+		if (a.P != nil || len(a.Alts) > 0) && e.f != nil {
 			as = e.f.ptrTerm(a)
 		}
-		if b.P != nil && e.f != nil {
+		if (b.P != nil || len(b.Alts) > 0) && e.f != nil {
 			bs = e.f.ptrTerm(b)
 		}
 		return Val{T: B, S: c.cmp(n.Op, as, bs, t)}
@@ -982,7 +1030,7 @@ func (e *SpecEnv) callPure(pf *PureFunc, args []SExpr, hint types.Type) Val {
 	if len(args) != len(pf.Params) {
 		sfail("%s expects %d arguments", pf.Name, len(pf.Params))
 	}
-	penv := &SpecEnv{f: e.f, c: c, vars: map[string]Val{}, st: e.st, old: e.old, pkg: e.pkg, depth: e.depth + 1, pre: e.pre}
+	penv := &SpecEnv{f: e.f, c: c, vars: map[string]Val{}, st: e.st, old: e.old, pkg: e.pkg, depth: e.depth + 1, pre: e.pre, loc: e.loc}
 	if pp := c.eng.ssaPkg(pf.Pkg); pp != nil {
 		penv.pkg = pp
 	}
@@ -1087,6 +1135,7 @@ func (e *SpecEnv) callPure(pf *PureFunc, args []SExpr, hint types.Type) Val {
 // lvalue evaluation for modifies clauses -----------------------------------
 
 type lval struct {
+	heapAll   []string     // modifies heap(T): every object of type T (heap names)
 	globalsOf *ssa.Package // modifies globals(pkg): every package-level variable of pkg
 	path  *Path
 	whole bool   // x[*]: the whole array window of a slice
@@ -1099,6 +1148,17 @@ func (e *SpecEnv) lvalue(x SExpr) lval {
 	c := e.c
 	switch n := x.(type) {
 	case *SCall:
+		if n.Fn == "heap" && len(n.Args) == 1 {
+			t := e.typeFromExpr(n.Args[0])
+			p := &Path{Kind: rootHeap, T: t, Ref: "0"}
+			var names []string
+			for _, hn := range c.heapNamesWritten(p) {
+				names = append(names, hn)
+			}
+			// make sure the heaps are declared
+			c.load(e.st, p)
+			return lval{heapAll: names}
+		}
 		if n.Fn == "globals" && len(n.Args) == 1 {
 			if id, ok := n.Args[0].(*SIdent); ok && e.pkg != nil {
 				if id.Name == e.pkg.Pkg.Name() {
